@@ -109,7 +109,10 @@ def s55(ctx, prog):
         n += 1
         label = sub_label(eff)
         placed = []
-        taken = [SYM('root'), SYM('node')]
+        # `root` is the node the branch works on: either already taken off the stack when the branch is entered (then the seeded
+        # symbol occurs in the path) or popped inside the branch (then it is one of the pops collected below)
+        root_used = any(has_subterm(x_, SYM('root')) for _nm, a_, _sp in calls_of(eff) for x_ in a_ if isinstance(x_, tuple))
+        taken = ([SYM('root')] if root_used else []) + [SYM('node')]
         for nm, a, sp in calls_of(eff):
             if nm == 'push' and len(a) == 2:
                 placed.append((a[1], sp))
@@ -140,14 +143,29 @@ def s55(ctx, prog):
     # the non-separator path through an open sequence: the popped last element is pushed back exactly once
     g = f
     start2 = None
+    root_tys = []
     for b, t in g.calls():
         if t['callee']['name'] == 'is_sequence' and t['callee'].get('local'):
             from mirlib import def_roots, op_place, resolve_place, call_result_bool_edges
             a = op_place(t['args'][0])
             for r in def_roots(g, resolve_place(g, a)['l']):
                 if r[1] == 'term' and r[2]['callee']['name'] == 'operator':
-                    recv = resolve_place(g, op_place(r[2]['args'][0]))
-                    if g.local_name(recv['l']) == 'root':
+                    raw = op_place(r[2]['args'][0])
+                    recv = resolve_place(g, raw)
+                    names_ = {g.local_name(recv['l'])}
+                    l_ = raw['l'] if raw is not None else None
+                    for _step in range(5):
+                        if l_ is None:
+                            break
+                        names_.add(g.local_name(l_))
+                        if g.local_name(l_) == 'root':
+                            root_tys.append(g.locals[l_]['ty'])
+                        sd_ = g.single_def(l_)
+                        if sd_ is None or sd_[1] == 'term':
+                            break
+                        src_ = sd_[2].get('pl') if sd_[2]['k'] == 'ref' else (op_place(sd_[2]['op']) if sd_[2]['k'] == 'use' else None)
+                        l_ = src_['l'] if src_ is not None else None
+                    if 'root' in names_:
                         e = call_result_bool_edges(g, b)
                         if e:
                             start2 = e
@@ -172,8 +190,13 @@ def s55(ctx, prog):
             # in-place form: the last element is edited through `root.children.last_mut()`, nothing is taken out
             tgt = ins[0][0]
             in_place = tgt[0] == 'proj' and tgt[2] == ('as Some', '0') and tgt[1][0] == 'app' and tgt[1][1].split('::')[-1].split('#')[0] == 'last_mut' and tgt[1][2] == (('proj', SYM('root'), ('children',)),)
-            good = in_place and pushes == [(SYM('root_stack'), SYM('root'))]
-        ctx.check(good, 'S5.5', 'open-sequence:insert-into-last-element', 'last-element', 'a non-separator token is inserted into the last element of the open sequence, which is popped and pushed back exactly once, or edited in place through last_mut() (pops %d, pushes %s)' % (len(pops), [fmt(a[1])[:60] for a in pushes]), span=g.span)
+            root_is_borrow = bool(root_tys) and all(ty_.startswith('&mut') for ty_ in root_tys)
+            good = in_place and (pushes == [(SYM('root_stack'), SYM('root'))] or (root_is_borrow and not pushes))
+            if not good and not pushes and tgt[0] == 'proj' and tgt[2] == ('as Some', '0') and tgt[1][0] == 'app' and tgt[1][1].split('::')[-1].split('#')[0] == 'last_mut' and len(tgt[1][2]) == 1:
+                # the open sequence itself is edited where it sits on the stack: root_stack.last_mut() -> its children.last_mut()
+                kids = tgt[1][2][0]
+                good = kids[0] == 'proj' and kids[2][-1:] == ('children',) and any(n_.split('::')[-1].split('#')[0] == 'last_mut' and x_ == (SYM('root_stack'),) for n_, x_ in apps(kids))
+        ctx.check(good, 'S5.5', 'open-sequence:insert-into-last-element', 'last-element', 'a non-separator token is inserted into the last element of the open sequence, which is popped and pushed back exactly once, or edited in place through last_mut() (pops %d, pushes %s, inserted into %s)' % (len(pops), [fmt(a[1])[:60] for a in pushes], [fmt(a[0])[:110] for a in ins]), span=g.span)
     ctx.floor('S5.5', 'open_sequence_paths', m, 1)
 
 
